@@ -872,7 +872,7 @@ def run(ses, rep):
     except Inconclusive as e:
         rep.add("number-kernel", "inconclusive", str(e)[:300])
     # B': parentheses on a small plan of C05's composer
-    c05.run(ses, rep, plan=[("default", 2, 1, False)] if rep.tier == "quick" else [("default", 2, 1, False), ("full", 2, 1, True)])
+    c05.run(ses, rep, plan=[("default", 2, 1, False), ("full", 2, 1, True)])
     # a semicolon is redundant only if the next statement cannot continue the previous one (C01's O1 kernel, reused)
     from . import c01
     semi = []
